@@ -8,29 +8,41 @@ import DracoProofs.SkipEquiv
    yields bit-identical results to an ordinary decode of the same stream; all other attributes
    and the connectivity are unaffected by the option."
 
-  Model: `decodeGeometry (opts : DecOpts)`, sequential decoders (encoder method 0) for point
-  clouds and meshes; `opts.skip` is the list of attribute types whose transform is skipped;
-  the ordinary decode is `decodeGeometry {}`.
+  Model: the complete decoder `decodeGeometry (opts : DecOpts)` (DracoModel/Decoder.lean) dispatches
+  on the encoder-method byte to the sequential, Edgebreaker and kd-tree decoders;
+  `decodeGeometrySeq opts` (DracoProofs/SeqStream.lean) is the same dispatcher with the
+  Edgebreaker / kd-tree bodies rejected.  `opts.skip` is the list of attribute types whose
+  transform is skipped; the ordinary decode is `… {}`.
 
-  What holds of the code (all FULL strength, no extra hypotheses):
+  SCOPE.  Every theorem `X_seq` below is about `decodeGeometrySeq` and holds for ALL streams with
+  no extra hypothesis.  The property theorems proper (`skip_of_normal`, `skip_unaffected`,
+  `skip_unaffected_general`, `skip_mono`, `skip_equiv`, `skip_reject_same_prefix`) are the same
+  statements about the complete decoder `decodeGeometry` under the hypothesis `IsSeqStream s`
+  (the header is readable and announces encoder method 0; then `decodeGeometry = decodeGeometrySeq`
+  by `decodeGeometry_eq_seq`).  Edgebreaker and kd-tree streams are NOT covered by these theorems
+  (for them the property is checked by the executable `Spec.skipCheck` on implementation outputs).
+  `skip_of_normal_with` reduces the main direction for the complete decoder on all streams to the
+  same statement (`SkipGeomOK`) about the two body decoders, which is not proved here.
 
-  * `skip_of_normal`   whenever the ordinary decode accepts, the decode with any skip list `S`
+  What holds of the code:
+
+  * `skip_of_normal_seq`   whenever the ordinary decode accepts, the decode with any skip list `S`
         accepts too, ends in the SAME decoder state (same input consumed, same allocations),
         returns the same metadata, geometry type, number of points and faces, and attribute by
         attribute the results are related by `SkipRel S` (same unique id, type, mapping, number
         of values; either identical, or — type in `S` — int32 values `portable` with a
         transform description such that applying the described transform to `portable`
         gives exactly the bytes of the ordinary decode).
-  * `skip_unaffected`  attributes whose type is not in `S` are identical in both decodes;
-        `skip_unaffected_general`: the same between any two skip lists that agree on the type.
-  * `skip_mono`        enlarging the skip list never turns an accepted stream into a rejected
+  * `skip_unaffected_seq`  attributes whose type is not in `S` are identical in both decodes;
+        `skip_unaffected_general_seq`: the same between any two skip lists that agree on the type.
+  * `skip_mono_seq`        enlarging the skip list never turns an accepted stream into a rejected
         one (same final state, everything but the newly skipped attributes identical).
-  * `skip_equiv`       the honest accept-equivalence: the ordinary decode accepts iff the
+  * `skip_equiv_seq`       the honest accept-equivalence: the ordinary decode accepts iff the
         skipped decode accepts AND no attribute with type in `S` is `Blocked`.  The converse of
-        `skip_of_normal` is FALSE of the code: the skipped path does not evaluate two checks of
+        `skip_of_normal_seq` is FALSE of the code: the skipped path does not evaluate two checks of
         the ordinary path (`skip_accepts_more_witness`, `skip_accepts_more_witness_octa`:
         concrete streams accepted with the option and rejected without it).
-  * `skip_reject_same_prefix`  if the ordinary decode rejects a stream that the skipped decode
+  * `skip_reject_same_prefix_seq`  if the ordinary decode rejects a stream that the skipped decode
         accepts, then the ordinary decode fails only in `TransformAttributesToOriginalFormat`,
         after consuming exactly the same input, at a `Blocked` attribute state produced by
         `decodeSeqStates` whose type is in `S`.
@@ -198,17 +210,17 @@ theorem finishAtt_accepts_more_witness :
     it has consumed exactly the same input), and its result has the same metadata, geometry
     type, number of points and faces, and attributes related one by one (same order, same
     number) by `SkipRel S`. -/
-theorem skip_of_normal (S : List Nat) (s s' : DSt) (r : DecodeResult)
-    (h : decodeGeometry {} s = (some r, s')) :
-    ∃ rS, decodeGeometry { skip := S } s = (some rS, s') ∧ rS.metadata = r.metadata ∧
+theorem skip_of_normal_seq (S : List Nat) (s s' : DSt) (r : DecodeResult)
+    (h : decodeGeometrySeq {} s = (some r, s')) :
+    ∃ rS, decodeGeometrySeq { skip := S } s = (some rS, s') ∧ rS.metadata = r.metadata ∧
       rS.geometry.isMesh = r.geometry.isMesh ∧ rS.geometry.numPoints = r.geometry.numPoints ∧
       rS.geometry.faces = r.geometry.faces ∧
       List.Forall₂ (SkipRel S) r.geometry.atts rS.geometry.atts := by
-  obtain ⟨fr, hfr, hfin⟩ := (decodeGeometry_some_iff {} s s' r).1 h
+  obtain ⟨fr, hfr, hfin⟩ := (decodeGeometrySeq_some_iff {} s s' r).1 h
   obtain ⟨rS, hrS, hsame⟩ := finishGeomPure_rel (SkipRel S) [] S fr
     (fun sts hst x hxm a ha =>
       finishPure_skipRel S fr.numPoints x (geomFront_wf s s' fr hfr sts hst x hxm) a ha) r hfin
-  exact ⟨rS, (decodeGeometry_some_iff { skip := S } s s' rS).2 ⟨fr, hfr, hrS⟩, hsame⟩
+  exact ⟨rS, (decodeGeometrySeq_some_iff { skip := S } s s' rS).2 ⟨fr, hfr, hrS⟩, hsame⟩
 
 /-- the stream used for non-vacuity: point cloud, bitstream 2.3, sequential encoding, 1 point,
     one attributes decoder with one attribute (POSITION, UINT8, 1 component, unique id 0) coded
@@ -217,70 +229,70 @@ theorem skip_of_normal (S : List Nat) (s s' : DSt) (r : DecodeResult)
 def bs1 : Bytes :=
   [68, 82, 65, 67, 79, 2, 3, 0, 0, 0, 0,  1, 0, 0, 0,  1,  1,  0, 2, 1, 0, 0,  1,  254, 0, 1, 6]
 
-/-- non-vacuity of `skip_of_normal`: `bs1` is accepted by the ordinary decode … -/
-theorem bs1_accepted : (decodeGeometry {} { rest := bs1 }).1.isSome = true := by decide +kernel
+/-- non-vacuity of `skip_of_normal_seq`: `bs1` is accepted by the ordinary decode … -/
+theorem bs1_accepted_seq : (decodeGeometrySeq {} { rest := bs1 }).1.isSome = true := by decide +kernel
 
 /-- … and the two decodes return what the property describes: the uint8 value 3, resp. the
     int32 value 3 (the transform description is `none` for an integer attribute) -/
 example :
-    (decodeGeometry {} { rest := bs1 }).1.map (·.geometry.atts) =
+    (decodeGeometrySeq {} { rest := bs1 }).1.map (·.geometry.atts) =
       some [{ attType := 0, dataType := 2, numComponents := 1, normalized := false, uniqueId := 0,
               numValues := 1, map := none, values := [3] }] ∧
-    (decodeGeometry { skip := [0] } { rest := bs1 }).1.map (·.geometry.atts) =
+    (decodeGeometrySeq { skip := [0] } { rest := bs1 }).1.map (·.geometry.atts) =
       some [{ attType := 0, dataType := 5, numComponents := 1, normalized := false, uniqueId := 0,
               numValues := 1, map := none, values := [3, 0, 0, 0] }] := by
   decide +kernel
 
-example : ∃ r s' rS, decodeGeometry {} { rest := bs1 } = (some r, s') ∧
-    decodeGeometry { skip := [0] } { rest := bs1 } = (some rS, s') ∧
+example : ∃ r s' rS, decodeGeometrySeq {} { rest := bs1 } = (some r, s') ∧
+    decodeGeometrySeq { skip := [0] } { rest := bs1 } = (some rS, s') ∧
     List.Forall₂ (SkipRel [0]) r.geometry.atts rS.geometry.atts := by
-  have h := bs1_accepted
-  cases hd : decodeGeometry {} { rest := bs1 } with
+  have h := bs1_accepted_seq
+  cases hd : decodeGeometrySeq {} { rest := bs1 } with
   | mk o s' =>
     rw [hd] at h
     cases o with
     | none => cases h
     | some r =>
-      obtain ⟨rS, h1, _, _, _, _, h2⟩ := skip_of_normal [0] _ s' r hd
+      obtain ⟨rS, h1, _, _, _, _, h2⟩ := skip_of_normal_seq [0] _ s' r hd
       exact ⟨r, s', rS, rfl, h1, h2⟩
 
 /-- C10, "all other attributes are unaffected": when both decodes accept, attributes whose type
     is not in `S` are identical (the lists have the same length and order by `Forall₂`). -/
-theorem skip_unaffected (S : List Nat) (s s' s'' : DSt) (r rS : DecodeResult)
-    (h : decodeGeometry {} s = (some r, s')) (hS : decodeGeometry { skip := S } s = (some rS, s'')) :
+theorem skip_unaffected_seq (S : List Nat) (s s' s'' : DSt) (r rS : DecodeResult)
+    (h : decodeGeometrySeq {} s = (some r, s')) (hS : decodeGeometrySeq { skip := S } s = (some rS, s'')) :
     s'' = s' ∧
     List.Forall₂ (fun a aS => a.attType ∉ S → aS = a) r.geometry.atts rS.geometry.atts := by
-  obtain ⟨rS', h1, _, _, _, _, h2⟩ := skip_of_normal S s s' r h
+  obtain ⟨rS', h1, _, _, _, _, h2⟩ := skip_of_normal_seq S s s' r h
   rw [hS] at h1
   cases h1
   refine ⟨rfl, ?_⟩
   exact h2.imp (fun _ _ hr => hr.2.2.2.2.2.2)
 
-example : ∃ r s' rS s'', decodeGeometry {} { rest := bs1 } = (some r, s') ∧
-    decodeGeometry { skip := [1, 3] } { rest := bs1 } = (some rS, s'') := by
-  have h := bs1_accepted
-  cases hd : decodeGeometry {} { rest := bs1 } with
+example : ∃ r s' rS s'', decodeGeometrySeq {} { rest := bs1 } = (some r, s') ∧
+    decodeGeometrySeq { skip := [1, 3] } { rest := bs1 } = (some rS, s'') := by
+  have h := bs1_accepted_seq
+  cases hd : decodeGeometrySeq {} { rest := bs1 } with
   | mk o s' =>
     rw [hd] at h
     cases o with
     | none => cases h
     | some r =>
-      obtain ⟨rS, h1, _⟩ := skip_of_normal [1, 3] _ s' r hd
+      obtain ⟨rS, h1, _⟩ := skip_of_normal_seq [1, 3] _ s' r hd
       exact ⟨r, s', rS, s', rfl, h1⟩
 
 /-- the same between any two skip lists: when both decodes accept they end in the same state,
     agree on metadata and connectivity, and every attribute on whose type the two lists agree is
     identical; unique id, type, mapping and number of values agree for all attributes -/
-theorem skip_unaffected_general (S T : List Nat) (s s' s'' : DSt) (r r' : DecodeResult)
-    (h : decodeGeometry { skip := S } s = (some r, s'))
-    (h' : decodeGeometry { skip := T } s = (some r', s'')) :
+theorem skip_unaffected_general_seq (S T : List Nat) (s s' s'' : DSt) (r r' : DecodeResult)
+    (h : decodeGeometrySeq { skip := S } s = (some r, s'))
+    (h' : decodeGeometrySeq { skip := T } s = (some r', s'')) :
     s'' = s' ∧ r'.metadata = r.metadata ∧ r'.geometry.isMesh = r.geometry.isMesh ∧
     r'.geometry.numPoints = r.geometry.numPoints ∧ r'.geometry.faces = r.geometry.faces ∧
     List.Forall₂ (fun a b => b.uniqueId = a.uniqueId ∧ b.attType = a.attType ∧ b.map = a.map ∧
         b.numValues = a.numValues ∧ ((a.attType ∈ S ↔ a.attType ∈ T) → b = a))
       r.geometry.atts r'.geometry.atts := by
-  obtain ⟨fr, hfr, hfin⟩ := (decodeGeometry_some_iff { skip := S } s s' r).1 h
-  obtain ⟨fr', hfr', hfin'⟩ := (decodeGeometry_some_iff { skip := T } s s'' r').1 h'
+  obtain ⟨fr, hfr, hfin⟩ := (decodeGeometrySeq_some_iff { skip := S } s s' r).1 h
+  obtain ⟨fr', hfr', hfin'⟩ := (decodeGeometrySeq_some_iff { skip := T } s s'' r').1 h'
   rw [hfr] at hfr'
   cases hfr'
   refine ⟨rfl, ?_⟩
@@ -295,32 +307,32 @@ theorem skip_unaffected_general (S T : List Nat) (s s' s'' : DSt) (r r' : Decode
   cases ha
   rfl
 
-example : ∃ r s' r' s'', decodeGeometry { skip := [0] } { rest := bs1 } = (some r, s') ∧
-    decodeGeometry { skip := [0, 1] } { rest := bs1 } = (some r', s'') := by
-  have h := bs1_accepted
-  cases hd : decodeGeometry {} { rest := bs1 } with
+example : ∃ r s' r' s'', decodeGeometrySeq { skip := [0] } { rest := bs1 } = (some r, s') ∧
+    decodeGeometrySeq { skip := [0, 1] } { rest := bs1 } = (some r', s'') := by
+  have h := bs1_accepted_seq
+  cases hd : decodeGeometrySeq {} { rest := bs1 } with
   | mk o s' =>
     rw [hd] at h
     cases o with
     | none => cases h
     | some r =>
-      obtain ⟨rS, h1, _⟩ := skip_of_normal [0] _ s' r hd
-      obtain ⟨rT, h2, _⟩ := skip_of_normal [0, 1] _ s' r hd
+      obtain ⟨rS, h1, _⟩ := skip_of_normal_seq [0] _ s' r hd
+      obtain ⟨rT, h2, _⟩ := skip_of_normal_seq [0, 1] _ s' r hd
       exact ⟨rS, s', rT, s', h1, h2⟩
 
 /-- Monotonicity in the skip list: if the decode with skip list `S` accepts and `S ⊆ T`, the
     decode with skip list `T` accepts with the same final state, the same metadata and
     connectivity; attributes whose type is in `S` or not in `T` are identical, the others keep
     unique id, type, mapping and number of values. -/
-theorem skip_mono (S T : List Nat) (hST : ∀ t, t ∈ S → t ∈ T) (s s' : DSt) (r : DecodeResult)
-    (h : decodeGeometry { skip := S } s = (some r, s')) :
-    ∃ rT, decodeGeometry { skip := T } s = (some rT, s') ∧ rT.metadata = r.metadata ∧
+theorem skip_mono_seq (S T : List Nat) (hST : ∀ t, t ∈ S → t ∈ T) (s s' : DSt) (r : DecodeResult)
+    (h : decodeGeometrySeq { skip := S } s = (some r, s')) :
+    ∃ rT, decodeGeometrySeq { skip := T } s = (some rT, s') ∧ rT.metadata = r.metadata ∧
       rT.geometry.isMesh = r.geometry.isMesh ∧ rT.geometry.numPoints = r.geometry.numPoints ∧
       rT.geometry.faces = r.geometry.faces ∧
       List.Forall₂ (fun a b => b.uniqueId = a.uniqueId ∧ b.attType = a.attType ∧ b.map = a.map ∧
           b.numValues = a.numValues ∧ (a.attType ∈ S ∨ a.attType ∉ T → b = a))
         r.geometry.atts rT.geometry.atts := by
-  obtain ⟨fr, hfr, hfin⟩ := (decodeGeometry_some_iff { skip := S } s s' r).1 h
+  obtain ⟨fr, hfr, hfin⟩ := (decodeGeometrySeq_some_iff { skip := S } s s' r).1 h
   have hex : ∃ rT, finishGeomPure T fr = some rT := by
     have h1 : (finishGeomPure S fr).isSome := by
       have : finishGeomPure ({ skip := S } : DecOpts).skip fr = some r := hfin
@@ -338,9 +350,9 @@ theorem skip_mono (S T : List Nat) (hST : ∀ t, t ∈ S → t ∈ T) (s s' : DS
     | none => rw [hT] at h2; cases h2
     | some rT => exact ⟨rT, rfl⟩
   obtain ⟨rT, hT⟩ := hex
-  have hdec : decodeGeometry { skip := T } s = (some rT, s') :=
-    (decodeGeometry_some_iff { skip := T } s s' rT).2 ⟨fr, hfr, hT⟩
-  obtain ⟨_, g1, g2, g3, g4, g5⟩ := skip_unaffected_general S T s s' s' r rT h hdec
+  have hdec : decodeGeometrySeq { skip := T } s = (some rT, s') :=
+    (decodeGeometrySeq_some_iff { skip := T } s s' rT).2 ⟨fr, hfr, hT⟩
+  obtain ⟨_, g1, g2, g3, g4, g5⟩ := skip_unaffected_general_seq S T s s' s' r rT h hdec
   refine ⟨rT, hdec, g1, g2, g3, g4, g5.imp ?_⟩
   rintro a b ⟨e1, e2, e3, e4, e5⟩
   refine ⟨e1, e2, e3, e4, fun hor => e5 ?_⟩
@@ -348,17 +360,17 @@ theorem skip_mono (S T : List Nat) (hST : ∀ t, t ∈ S → t ∈ T) (s s' : DS
   · exact ⟨fun _ => hST _ hm, fun _ => hm⟩
   · exact ⟨fun hm => absurd (hST _ hm) hn, fun hm => absurd hm hn⟩
 
-example : ∃ r s' rT, decodeGeometry { skip := [3] } { rest := bs1 } = (some r, s') ∧
-    decodeGeometry { skip := [0, 3] } { rest := bs1 } = (some rT, s') := by
-  have h := bs1_accepted
-  cases hd : decodeGeometry {} { rest := bs1 } with
+example : ∃ r s' rT, decodeGeometrySeq { skip := [3] } { rest := bs1 } = (some r, s') ∧
+    decodeGeometrySeq { skip := [0, 3] } { rest := bs1 } = (some rT, s') := by
+  have h := bs1_accepted_seq
+  cases hd : decodeGeometrySeq {} { rest := bs1 } with
   | mk o s' =>
     rw [hd] at h
     cases o with
     | none => cases h
     | some r =>
-      obtain ⟨rS, h1, _⟩ := skip_of_normal [3] _ s' r hd
-      obtain ⟨rT, h2, _⟩ := skip_mono [3] [0, 3] (by simp) _ s' rS h1
+      obtain ⟨rS, h1, _⟩ := skip_of_normal_seq [3] _ s' r hd
+      obtain ⟨rT, h2, _⟩ := skip_mono_seq [3] [0, 3] (by simp) _ s' rS h1
       exact ⟨rS, s', rT, h1, h2⟩
 
 /-- The honest accept-equivalence.  The ordinary decode accepts a stream iff the decode with
@@ -370,12 +382,12 @@ example : ∃ r s' rT, decodeGeometry { skip := [3] } { rest := bs1 } = (some r,
 
     The plain equivalence `ordinary accepts ↔ skipped accepts` is FALSE of the code:
     `skip_accepts_more_witness`. -/
-theorem skip_equiv (S : List Nat) (s : DSt) :
-    (decodeGeometry {} s).1.isSome ↔
-      ((decodeGeometry { skip := S } s).1.isSome ∧
+theorem skip_equiv_seq (S : List Nat) (s : DSt) :
+    (decodeGeometrySeq {} s).1.isSome ↔
+      ((decodeGeometrySeq { skip := S } s).1.isSome ∧
         ¬ ∃ fr s1 sts x, geomFront s = (some fr, s1) ∧ fr.states = some sts ∧ x ∈ sts ∧
             x.desc.attType ∈ S ∧ x.Blocked) := by
-  rw [decodeGeometry_isSome_iff, decodeGeometry_isSome_iff]
+  rw [decodeGeometrySeq_isSome_iff, decodeGeometrySeq_isSome_iff]
   constructor
   · rintro ⟨fr, s', hfr, hfin⟩
     rw [finishGeomPure_isSome_iff] at hfin
@@ -419,24 +431,24 @@ theorem skip_equiv (S : List Nat) (s : DSt) :
     the geometry's number of points, ending in `s'`) there is one whose type is in `S` and that
     is an integer-coded attribute with a declared data type outside INT8..UINT32, or a normal
     attribute whose octahedral quantization is outside 2..30 bits. -/
-theorem skip_reject_same_prefix (S : List Nat) (s s' : DSt) (rS : DecodeResult)
-    (h0 : (decodeGeometry {} s).1 = none)
-    (hS : decodeGeometry { skip := S } s = (some rS, s')) :
-    decodeGeometry {} s = (none, if s'.status == .ok then { s' with status := .error } else s') ∧
+theorem skip_reject_same_prefix_seq (S : List Nat) (s s' : DSt) (rS : DecodeResult)
+    (h0 : (decodeGeometrySeq {} s).1 = none)
+    (hS : decodeGeometrySeq { skip := S } s = (some rS, s')) :
+    decodeGeometrySeq {} s = (none, if s'.status == .ok then { s' with status := .error } else s') ∧
     ∃ fr sts x, geomFront s = (some fr, s') ∧ fr.states = some sts ∧
       (∃ s0, decodeSeqStates fr.numPoints s0 = (some sts, s')) ∧
       x ∈ sts ∧ x.desc.attType ∈ S ∧
       ((x.decoderType = 1 ∧ ¬ (1 ≤ x.desc.dataType ∧ x.desc.dataType ≤ 6)) ∨
        (x.decoderType = 3 ∧
          ∃ bits : Int, x.transform = .octahedron bits ∧ ¬ (2 ≤ bits ∧ bits ≤ 30))) := by
-  obtain ⟨fr, hfr, hfin⟩ := (decodeGeometry_some_iff { skip := S } s s' rS).1 hS
+  obtain ⟨fr, hfr, hfin⟩ := (decodeGeometrySeq_some_iff { skip := S } s s' rS).1 hS
   have hnone : finishGeomPure ({} : DecOpts).skip fr = none := by
     cases hf : finishGeomPure ({} : DecOpts).skip fr with
     | none => rfl
     | some r =>
-      rw [(decodeGeometry_some_iff {} s s' r).2 ⟨fr, hfr, hf⟩] at h0
+      rw [(decodeGeometrySeq_some_iff {} s s' r).2 ⟨fr, hfr, hf⟩] at h0
       cases h0
-  refine ⟨decodeGeometry_none_of_front {} s s' fr hfr hnone, ?_⟩
+  refine ⟨decodeGeometrySeq_none_of_front {} s s' fr hfr hnone, ?_⟩
   have hS' : (finishGeomPure S fr).isSome := by
     have : finishGeomPure ({ skip := S } : DecOpts).skip fr = some rS := hfin
     rw [this]; rfl
@@ -480,33 +492,251 @@ def bs3 : Bytes :=
   [68, 82, 65, 67, 79, 2, 3, 0, 0, 0, 0,  1, 0, 0, 0,  1,  1,  1, 9, 3, 0, 0,  3,
    254, 0, 1, 0, 0,  1]
 
-/-- The converse of `skip_of_normal` is FALSE of the code: the stream `bs2` is accepted when the
-    transform of POSITION attributes is skipped and rejected by the ordinary decode; both read
-    the whole stream.  (Also non-vacuity of `skip_reject_same_prefix`.) -/
-theorem skip_accepts_more_witness :
-    (decodeGeometry {} { rest := bs2 }).1 = none ∧
-    (decodeGeometry { skip := [0] } { rest := bs2 }).1.isSome = true ∧
-    (decodeGeometry {} { rest := bs2 }).2.rest = [] ∧
-    (decodeGeometry { skip := [0] } { rest := bs2 }).2.rest = [] := by
-  decide +kernel
-
-/-- the same for the second unevaluated check: a normal attribute with 1 quantization bit -/
-theorem skip_accepts_more_witness_octa :
-    (decodeGeometry {} { rest := bs3 }).1 = none ∧
-    (decodeGeometry { skip := [1] } { rest := bs3 }).1.isSome = true ∧
-    (decodeGeometry {} { rest := bs3 }).2.rest = [] ∧
-    (decodeGeometry { skip := [1] } { rest := bs3 }).2.rest = [] := by
-  decide +kernel
-
-example : ∃ rS s', (decodeGeometry {} { rest := bs2 }).1 = none ∧
-    decodeGeometry { skip := [0] } { rest := bs2 } = (some rS, s') := by
-  obtain ⟨h1, h2, _⟩ := skip_accepts_more_witness
-  cases hd : decodeGeometry { skip := [0] } { rest := bs2 } with
+/-- non-vacuity of `skip_reject_same_prefix_seq` -/
+example : ∃ rS s', (decodeGeometrySeq {} { rest := bs2 }).1 = none ∧
+    decodeGeometrySeq { skip := [0] } { rest := bs2 } = (some rS, s') := by
+  have h1 : (decodeGeometrySeq {} { rest := bs2 }).1 = none := by decide +kernel
+  have h2 : (decodeGeometrySeq { skip := [0] } { rest := bs2 }).1.isSome = true := by
+    decide +kernel
+  cases hd : decodeGeometrySeq { skip := [0] } { rest := bs2 } with
   | mk o s' =>
     rw [hd] at h2
     cases o with
     | none => cases h2
     | some rS => exact ⟨rS, s', h1, rfl⟩
+
+/-! ## the complete decoder `decodeGeometry`, on sequential streams
+
+  `decodeGeometry` dispatches on the encoder-method byte of the header to the sequential,
+  Edgebreaker and kd-tree decoders.  On a stream whose header announces a sequential method
+  (`IsSeqStream s`) it is `decodeGeometrySeq` (`decodeGeometry_eq_seq`), so everything above
+  holds for it.  Both runs (`{}` and `{ skip := S }`) start from the same `s`: one hypothesis
+  serves both. -/
+
+/-- C10, main direction, for the complete decoder on sequential streams (see
+    `skip_of_normal_seq`). -/
+theorem skip_of_normal (S : List Nat) (s s' : DSt) (r : DecodeResult) (hs : IsSeqStream s)
+    (h : decodeGeometry {} s = (some r, s')) :
+    ∃ rS, decodeGeometry { skip := S } s = (some rS, s') ∧ rS.metadata = r.metadata ∧
+      rS.geometry.isMesh = r.geometry.isMesh ∧ rS.geometry.numPoints = r.geometry.numPoints ∧
+      rS.geometry.faces = r.geometry.faces ∧
+      List.Forall₂ (SkipRel S) r.geometry.atts rS.geometry.atts := by
+  rw [decodeGeometry_eq_seq _ s hs] at h
+  rw [decodeGeometry_eq_seq { skip := S } s hs]
+  exact skip_of_normal_seq S s s' r h
+
+theorem bs1_seq : IsSeqStream { rest := bs1 } := isSeqStream_of_eval _ (by decide +kernel)
+theorem bs2_seq : IsSeqStream { rest := bs2 } := isSeqStream_of_eval _ (by decide +kernel)
+theorem bs3_seq : IsSeqStream { rest := bs3 } := isSeqStream_of_eval _ (by decide +kernel)
+
+/-- non-vacuity: `bs1` is a sequential stream accepted by the complete decoder -/
+theorem bs1_accepted : (decodeGeometry {} { rest := bs1 }).1.isSome = true := by decide +kernel
+
+example : ∃ r s' rS, IsSeqStream { rest := bs1 } ∧
+    decodeGeometry {} { rest := bs1 } = (some r, s') ∧
+    decodeGeometry { skip := [0] } { rest := bs1 } = (some rS, s') ∧
+    List.Forall₂ (SkipRel [0]) r.geometry.atts rS.geometry.atts := by
+  have h := bs1_accepted
+  cases hd : decodeGeometry {} { rest := bs1 } with
+  | mk o s' =>
+    rw [hd] at h
+    cases o with
+    | none => cases h
+    | some r =>
+      obtain ⟨rS, h1, _, _, _, _, h2⟩ := skip_of_normal [0] _ s' r bs1_seq hd
+      exact ⟨r, s', rS, bs1_seq, rfl, h1, h2⟩
+
+/-- the complete decoder returns what the property describes on `bs1` -/
+example :
+    (decodeGeometry {} { rest := bs1 }).1.map (·.geometry.atts) =
+      some [{ attType := 0, dataType := 2, numComponents := 1, normalized := false, uniqueId := 0,
+              numValues := 1, map := none, values := [3] }] ∧
+    (decodeGeometry { skip := [0] } { rest := bs1 }).1.map (·.geometry.atts) =
+      some [{ attType := 0, dataType := 5, numComponents := 1, normalized := false, uniqueId := 0,
+              numValues := 1, map := none, values := [3, 0, 0, 0] }] := by
+  decide +kernel
+
+/-- C10, "all other attributes are unaffected", complete decoder on sequential streams -/
+theorem skip_unaffected (S : List Nat) (s s' s'' : DSt) (r rS : DecodeResult)
+    (hs : IsSeqStream s)
+    (h : decodeGeometry {} s = (some r, s')) (hS : decodeGeometry { skip := S } s = (some rS, s'')) :
+    s'' = s' ∧
+    List.Forall₂ (fun a aS => a.attType ∉ S → aS = a) r.geometry.atts rS.geometry.atts := by
+  rw [decodeGeometry_eq_seq _ s hs] at h hS
+  exact skip_unaffected_seq S s s' s'' r rS h hS
+
+/-- any two skip lists, complete decoder on sequential streams (see
+    `skip_unaffected_general_seq`) -/
+theorem skip_unaffected_general (S T : List Nat) (s s' s'' : DSt) (r r' : DecodeResult)
+    (hs : IsSeqStream s)
+    (h : decodeGeometry { skip := S } s = (some r, s'))
+    (h' : decodeGeometry { skip := T } s = (some r', s'')) :
+    s'' = s' ∧ r'.metadata = r.metadata ∧ r'.geometry.isMesh = r.geometry.isMesh ∧
+    r'.geometry.numPoints = r.geometry.numPoints ∧ r'.geometry.faces = r.geometry.faces ∧
+    List.Forall₂ (fun a b => b.uniqueId = a.uniqueId ∧ b.attType = a.attType ∧ b.map = a.map ∧
+        b.numValues = a.numValues ∧ ((a.attType ∈ S ↔ a.attType ∈ T) → b = a))
+      r.geometry.atts r'.geometry.atts := by
+  rw [decodeGeometry_eq_seq _ s hs] at h h'
+  exact skip_unaffected_general_seq S T s s' s'' r r' h h'
+
+/-- monotonicity in the skip list, complete decoder on sequential streams (see `skip_mono_seq`) -/
+theorem skip_mono (S T : List Nat) (hST : ∀ t, t ∈ S → t ∈ T) (s s' : DSt) (r : DecodeResult)
+    (hs : IsSeqStream s) (h : decodeGeometry { skip := S } s = (some r, s')) :
+    ∃ rT, decodeGeometry { skip := T } s = (some rT, s') ∧ rT.metadata = r.metadata ∧
+      rT.geometry.isMesh = r.geometry.isMesh ∧ rT.geometry.numPoints = r.geometry.numPoints ∧
+      rT.geometry.faces = r.geometry.faces ∧
+      List.Forall₂ (fun a b => b.uniqueId = a.uniqueId ∧ b.attType = a.attType ∧ b.map = a.map ∧
+          b.numValues = a.numValues ∧ (a.attType ∈ S ∨ a.attType ∉ T → b = a))
+        r.geometry.atts rT.geometry.atts := by
+  rw [decodeGeometry_eq_seq _ s hs] at h
+  rw [decodeGeometry_eq_seq { skip := T } s hs]
+  exact skip_mono_seq S T hST s s' r h
+
+example : ∃ r s' rS s'' rT, IsSeqStream { rest := bs1 } ∧
+    decodeGeometry {} { rest := bs1 } = (some r, s') ∧
+    decodeGeometry { skip := [3] } { rest := bs1 } = (some rS, s'') ∧
+    decodeGeometry { skip := [0, 3] } { rest := bs1 } = (some rT, s'') := by
+  have h := bs1_accepted
+  cases hd : decodeGeometry {} { rest := bs1 } with
+  | mk o s' =>
+    rw [hd] at h
+    cases o with
+    | none => cases h
+    | some r =>
+      obtain ⟨rS, h1, _⟩ := skip_of_normal [3] _ s' r bs1_seq hd
+      obtain ⟨rT, h2, _⟩ := skip_mono [3] [0, 3] (by simp) _ s' rS bs1_seq h1
+      exact ⟨r, s', rS, s', rT, bs1_seq, rfl, h1, h2⟩
+
+/-- the honest accept-equivalence, complete decoder on sequential streams (see
+    `skip_equiv_seq`); the plain equivalence is FALSE: `skip_accepts_more_witness` -/
+theorem skip_equiv (S : List Nat) (s : DSt) (hs : IsSeqStream s) :
+    (decodeGeometry {} s).1.isSome ↔
+      ((decodeGeometry { skip := S } s).1.isSome ∧
+        ¬ ∃ fr s1 sts x, geomFront s = (some fr, s1) ∧ fr.states = some sts ∧ x ∈ sts ∧
+            x.desc.attType ∈ S ∧ x.Blocked) := by
+  rw [decodeGeometry_eq_seq _ s hs, decodeGeometry_eq_seq { skip := S } s hs]
+  exact skip_equiv_seq S s
+
+example : IsSeqStream { rest := bs2 } := bs2_seq
+
+/-- complete decoder on sequential streams, see `skip_reject_same_prefix_seq` -/
+theorem skip_reject_same_prefix (S : List Nat) (s s' : DSt) (rS : DecodeResult)
+    (hs : IsSeqStream s)
+    (h0 : (decodeGeometry {} s).1 = none)
+    (hS : decodeGeometry { skip := S } s = (some rS, s')) :
+    decodeGeometry {} s = (none, if s'.status == .ok then { s' with status := .error } else s') ∧
+    ∃ fr sts x, geomFront s = (some fr, s') ∧ fr.states = some sts ∧
+      (∃ s0, decodeSeqStates fr.numPoints s0 = (some sts, s')) ∧
+      x ∈ sts ∧ x.desc.attType ∈ S ∧
+      ((x.decoderType = 1 ∧ ¬ (1 ≤ x.desc.dataType ∧ x.desc.dataType ≤ 6)) ∨
+       (x.decoderType = 3 ∧
+         ∃ bits : Int, x.transform = .octahedron bits ∧ ¬ (2 ≤ bits ∧ bits ≤ 30))) := by
+  rw [decodeGeometry_eq_seq _ s hs] at h0 hS
+  rw [decodeGeometry_eq_seq {} s hs]
+  exact skip_reject_same_prefix_seq S s s' rS h0 hS
+
+/-- The converse of `skip_of_normal` is FALSE of the code: the sequential stream `bs2` is
+    accepted by the complete decoder when the transform of POSITION attributes is skipped and
+    rejected by the ordinary decode; both read the whole stream.  (Also non-vacuity of
+    `skip_reject_same_prefix`.) -/
+theorem skip_accepts_more_witness :
+    IsSeqStream { rest := bs2 } ∧
+    (decodeGeometry {} { rest := bs2 }).1 = none ∧
+    (decodeGeometry { skip := [0] } { rest := bs2 }).1.isSome = true ∧
+    (decodeGeometry {} { rest := bs2 }).2.rest = [] ∧
+    (decodeGeometry { skip := [0] } { rest := bs2 }).2.rest = [] :=
+  ⟨bs2_seq, by decide +kernel⟩
+
+/-- the same for the second unevaluated check: a normal attribute with 1 quantization bit -/
+theorem skip_accepts_more_witness_octa :
+    IsSeqStream { rest := bs3 } ∧
+    (decodeGeometry {} { rest := bs3 }).1 = none ∧
+    (decodeGeometry { skip := [1] } { rest := bs3 }).1.isSome = true ∧
+    (decodeGeometry {} { rest := bs3 }).2.rest = [] ∧
+    (decodeGeometry { skip := [1] } { rest := bs3 }).2.rest = [] :=
+  ⟨bs3_seq, by decide +kernel⟩
+
+example : ∃ rS s', IsSeqStream { rest := bs2 } ∧ (decodeGeometry {} { rest := bs2 }).1 = none ∧
+    decodeGeometry { skip := [0] } { rest := bs2 } = (some rS, s') := by
+  obtain ⟨h0, h1, h2, _⟩ := skip_accepts_more_witness
+  cases hd : decodeGeometry { skip := [0] } { rest := bs2 } with
+  | mk o s' =>
+    rw [hd] at h2
+    cases o with
+    | none => cases h2
+    | some rS => exact ⟨rS, s', h0, h1, rfl⟩
+
+/-! ## the dispatcher with arbitrary body decoders -/
+
+/-- what a body decoder (Edgebreaker, kd-tree) has to satisfy for the main direction of C10 -/
+def SkipGeomOK (dec : DecOpts → DecM Geometry) : Prop :=
+  ∀ (S : List Nat) (s : DSt) (g : Geometry) (s' : DSt), dec {} s = (some g, s') →
+    ∃ gS, dec { skip := S } s = (some gS, s') ∧ gS.isMesh = g.isMesh ∧
+      gS.numPoints = g.numPoints ∧ gS.faces = g.faces ∧
+      List.Forall₂ (SkipRel S) g.atts gS.atts
+
+/-- The main direction of C10 for the dispatcher over ANY Edgebreaker / kd-tree body decoders
+    that satisfy it themselves, for ALL streams: whoever proves
+    `SkipGeomOK Eb.decodeEdgebreaker` and `SkipGeomOK Kd.decodeKdGeometry` obtains
+    `skip_of_normal` for `decodeGeometry` without the hypothesis `IsSeqStream`.
+    (Those two facts are NOT proved here.) -/
+theorem skip_of_normal_with (eb kd : DecOpts → DecM Geometry) (heb : SkipGeomOK eb)
+    (hkd : SkipGeomOK kd) (S : List Nat) (s s' : DSt) (r : DecodeResult)
+    (h : decodeStreamWith eb kd {} s = (some r, s')) :
+    ∃ rS, decodeStreamWith eb kd { skip := S } s = (some rS, s') ∧ rS.metadata = r.metadata ∧
+      rS.geometry.isMesh = r.geometry.isMesh ∧ rS.geometry.numPoints = r.geometry.numPoints ∧
+      rS.geometry.faces = r.geometry.faces ∧
+      List.Forall₂ (SkipRel S) r.geometry.atts rS.geometry.atts := by
+  obtain ⟨fg, s1, hfg, hfin⟩ := (decodeStreamWith_some_iff eb kd {} s s' r).1 h
+  have body : ∀ (dec : DecOpts → DecM Geometry) (md : Option GeometryMetadata), SkipGeomOK dec →
+      (do let g ← dec {}; pure (⟨g, md⟩ : DecodeResult)) s1 = (some r, s') →
+      ∃ rS, (do let g ← dec { skip := S }; pure (⟨g, md⟩ : DecodeResult)) s1 = (some rS, s') ∧
+        rS.metadata = r.metadata ∧ rS.geometry.isMesh = r.geometry.isMesh ∧
+        rS.geometry.numPoints = r.geometry.numPoints ∧ rS.geometry.faces = r.geometry.faces ∧
+        List.Forall₂ (SkipRel S) r.geometry.atts rS.geometry.atts := by
+    intro dec md hdec hrun
+    simp only [bind] at hrun ⊢
+    obtain ⟨g, s2, hg, hp⟩ := (DecM.andThen_some _ _ s1 s' r).1 hrun
+    cases hp
+    obtain ⟨gS, hgS, e1, e2, e3, e4⟩ := hdec S s1 g s' hg
+    exact ⟨⟨gS, md⟩, (DecM.andThen_some _ _ s1 s' _).2 ⟨gS, s', hgS, rfl⟩, rfl, e1, e2, e3, e4⟩
+  cases fg with
+  | seq fr =>
+    have hfr : geomFront s = (some fr, s1) := (geomFront_some_iff s s1 fr).2 hfg
+    have hfin' : finishGeom {} fr s1 = (some r, s') := hfin
+    rw [finishGeom_eq, DecM.ofOption_some] at hfin'
+    obtain ⟨hpure, rfl⟩ := hfin'
+    obtain ⟨rS, hrS, hsame⟩ := finishGeomPure_rel (SkipRel S) [] S fr
+      (fun sts hst x hxm a ha =>
+        finishPure_skipRel S fr.numPoints x (geomFront_wf s s' fr hfr sts hst x hxm) a ha) r hpure
+    refine ⟨rS, (decodeStreamWith_some_iff eb kd _ s s' rS).2 ⟨.seq fr, s', hfg, ?_⟩, hsame⟩
+    show finishGeom { skip := S } fr s' = (some rS, s')
+    rw [finishGeom_eq, DecM.ofOption_some]
+    exact ⟨hrS, rfl⟩
+  | eb md =>
+    obtain ⟨rS, hrS, hsame⟩ := body eb md heb hfin
+    exact ⟨rS, (decodeStreamWith_some_iff eb kd _ s s' rS).2 ⟨.eb md, s1, hfg, hrS⟩, hsame⟩
+  | kd md =>
+    obtain ⟨rS, hrS, hsame⟩ := body kd md hkd hfin
+    exact ⟨rS, (decodeStreamWith_some_iff eb kd _ s s' rS).2 ⟨.kd md, s1, hfg, hrS⟩, hsame⟩
+
+/-- non-vacuity of `SkipGeomOK` / `skip_of_normal_with`: the rejecting body decoders of
+    `decodeGeometrySeq` satisfy it, and `decodeGeometrySeq` accepts `bs1` -/
+example : SkipGeomOK (fun _ => failWith (.unsupported "edgebreaker")) := by
+  intro S s g s' h; cases h
+
+example : ∃ r s' rS, decodeGeometrySeq {} { rest := bs1 } = (some r, s') ∧
+    decodeGeometrySeq { skip := [0] } { rest := bs1 } = (some rS, s') := by
+  have h := bs1_accepted_seq
+  cases hd : decodeGeometrySeq {} { rest := bs1 } with
+  | mk o s' =>
+    rw [hd] at h
+    cases o with
+    | none => cases h
+    | some r =>
+      obtain ⟨rS, h1, _⟩ := skip_of_normal_with _ _ (fun S s g s' h => by cases h)
+        (fun S s g s' h => by cases h) [0] _ s' r hd
+      exact ⟨r, s', rS, rfl, h1⟩
 
 /-- The int32 values exposed by a skipped decode can be read back from the exposed bytes
     (4 bytes little endian, two's complement), so a client can re-apply the described transform:
